@@ -429,6 +429,11 @@ def run_config(item):
     t.states = 1
     case = {"part": "run", "cfg": list(cfg), "seed": seed}
     data = payload.normal(seed, f"c12/run/{l}/{Nd}", (Nd, l))
+    # integer-typed records (raw counts) are legal input: the matrix must be the one of the same numbers held as floats
+    dtype = ("float64", "int16", "int32")[(idx // 3 + idx) % 3]
+    if dtype != "float64":
+        data = np.round(data * (900.0 if dtype == "int16" else 2.0e6)).astype(dtype)
+    t_dtype = dtype
     kw = dict(name="a", br=br, ordmax=2, method=method)
     if ref is not None:
         kw["ref_ind"] = list(ref)
@@ -442,9 +447,10 @@ def run_config(item):
         t.evaluations += 1
         t.violation(f"raises:{type(e).__name__}:run:{method}", f"{method} run raised {type(e).__name__}: {e} for l={l} ref_ind={ref} br={br} Ndat={Nd}", case)
         return t
-    Y = data.T
+    Y = data.T.astype(float)
     Yref = Y if ref is None else Y[list(ref), :]
     want = _hank(Y, Yref, br, method)
+    t.outcomes[f"run:records-as-{t_dtype}"] += 1
     t.evaluations += 2
     t.transitions += 1
     t.validated += 1
@@ -461,6 +467,8 @@ def run_config(item):
     # the SAME algorithm object bound to other records of the same shape (re-added to another setup) and run again: the
     # matrix must be the one of the records bound now (no Hankel matrix kept from an earlier run of the object or the class)
     data2 = payload.normal(seed, f"c12/run2/{l}/{Nd}", (Nd, l))
+    if dtype != "float64":
+        data2 = np.round(data2 * (900.0 if dtype == "int16" else 2.0e6)).astype(dtype)
     try:
         ss2 = SingleSetup(data2.copy(), fs=10.0)
         ss2.add_algorithms(alg)
@@ -469,7 +477,7 @@ def run_config(item):
     except Exception as e:
         t.violation(f"raises:{type(e).__name__}:rerun:{method}", f"{method} second run of the same algorithm object on other records raised {type(e).__name__}: {e}", case)
         return t
-    Y2 = data2.T
+    Y2 = data2.T.astype(float)
     want2 = _hank(Y2, Y2 if ref is None else Y2[list(ref), :], br, method)
     t.evaluations += 2
     t.transitions += 1
@@ -574,7 +582,7 @@ def explore(ctx):
                 "bilin:additive-in-data:ok", "bilin:additive-in-reference:ok", "bilin:homogeneous-in-data:ok",
                 "bilin:homogeneous-in-reference:ok", "bilin:homogeneous-jointly:ok", "dat:gram-equal",
                 "run:H-equal:cov_mm:permuted-subset", "run:H-equal:cov_R:permuted-subset", "run:H-equal:dat:permuted-subset",
-                "run:H-equal:dat:all-channels", "rerun:H-equal:cov_mm", "rerun:H-equal:cov_R", "rerun:H-equal:dat")
+                "run:H-equal:dat:all-channels", "rerun:H-equal:cov_mm", "rerun:H-equal:cov_R", "rerun:H-equal:dat", "run:records-as-int16", "run:records-as-int32")
     if not any(k.startswith("loop:equal:cov_mm") for k in ctx.tally.outcomes):
         ctx.require("loop:equal:cov_mm")
     if not any(k.startswith("loop:equal:cov_R") for k in ctx.tally.outcomes):
